@@ -162,7 +162,7 @@ def pass1Items (t : SegT) (limit : Nat) :
     if cur > limit then lineErr ln "overdue" else
     match it with
     | .label name =>
-      if (alookup name ctx.labels).isSome then lineErr ln "label-twice"
+      if ctx.exist name then lineErr ln "label-twice"
       else pass1Items t limit rest cur { ctx with labels := ainsert name (t, cur % 4294967296) ctx.labels }
     | .instruction op _ =>
       match t with
